@@ -42,6 +42,14 @@ func (s *Service) fetchExecutionConfigRuntime(_ context.Context) (
 	return s.chainTime.StartOfEpoch(s.chainTime.CurrentEpoch() + 1).Add(time.Duration(offset) * time.Second), nil
 }
 
+// currentExecutionConfig returns the execution configuration currently in force.
+func (s *Service) currentExecutionConfig() blockrelay.ExecutionConfigurator {
+	s.executionConfigMu.RLock()
+	defer s.executionConfigMu.RUnlock()
+
+	return s.executionConfig
+}
+
 // fetchExecutionConfig fetches the execution configuration.
 func (s *Service) fetchExecutionConfig(ctx context.Context) {
 	started := time.Now()
@@ -73,8 +81,9 @@ func (s *Service) fetchExecutionConfig(ctx context.Context) {
 
 	// Start with our current execution configuration.
 	s.executionConfigMu.RLock()
-	executionConfig := s.executionConfig
+	currentExecutionConfig := s.executionConfig
 	s.executionConfigMu.RUnlock()
+	executionConfig := currentExecutionConfig
 
 	if s.configURL == "" {
 		s.log.Trace().Msg("No config URL; using default configuration with fallback")
@@ -86,12 +95,12 @@ func (s *Service) fetchExecutionConfig(ctx context.Context) {
 			succeeded = false
 			s.log.Error().Str("config_url", s.configURL).Err(err).Msg("Failed to obtain execution configuration")
 			// Restore current execution configuration.
-			executionConfig = s.executionConfig
+			executionConfig = currentExecutionConfig
 		} else if executionConfig == nil {
 			succeeded = false
 			s.log.Error().Str("config_url", s.configURL).Msg("Obtained nil execution configuration")
 			// Restore current execution configuration.
-			executionConfig = s.executionConfig
+			executionConfig = currentExecutionConfig
 		}
 		monitorExecutionConfig(time.Since(started), succeeded)
 	}
